@@ -26,13 +26,12 @@ static _Bool wf_list_fields(const PoolList *l) {
 
 /* ---- state builder: a list with an arbitrary table (inline or heap) in which ONE focus entry `fi` is materialised with a
  * real slot block; all other entries hold arbitrary bytes (ghost-index style: obligations talk about one arbitrary entry). */
-/* heap table capacity used by the harnesses: the largest INITIAL*2^k that is <= min(maxPools, 64) (a constant; the code only
- * ever produces capacities INITIAL*2^k). Configurations whose maxPools <= 64 are therefore covered for EVERY pool index. */
+/* heap table capacity used by the harnesses: min(maxPools, 64) (a constant). Configurations whose maxPools <= 64 are therefore covered for EVERY pool index. */
 /* materialised slot block of the focus pool: CAP slots when CAP <= 16, otherwise a 16-slot window (pool occupancy is then
  * bounded by 16 in that configuration: such configurations are listed under "bounded_configs" and reported as class B) */
 #define POOL_WINDOW (CFG_CAP <= 16 ? CFG_CAP : 16)
-#define STEP_(c) (((c) * 2 <= MAXPOOLS && (c) * 2 <= 64) ? (c) * 2 : (c))
-#define HEAP_CAP STEP_(STEP_(STEP_(STEP_(STEP_(STEP_(CFG_INITIAL))))))
+/* (any capacity in (INITIAL, maxPools] is a legal heap table since growth clamps to maxPools and shrinkToFit() trims) */
+#define HEAP_CAP (MAXPOOLS <= 64 ? MAXPOOLS : 64)
 enum { heap_cap_k = HEAP_CAP };
 
 static PoolList *mk_list(unsigned *fi_out, _Bool need_focus) {
